@@ -340,6 +340,7 @@ def execute(case):
         ms2 = SMMapSet.read(text)
         out["reread"] = G.snap_set(ms2)
         out["text2"] = ms2.write()
+        out["reread2"] = G.snap_set(SMMapSet.read(out["text2"]))
     except EXC as e:
         out["reread_exc"] = type(e).__name__ + ": " + str(e)[:120]
     return out
@@ -405,6 +406,38 @@ def _objs(c):
     return sorted(out)
 
 
+def _max_rows(text):
+    best = 0
+    for chart in text.split("#NOTES:")[1:]:
+        data = chart.split(":")[-1].split(";")[0]
+        for m in data.split(","):
+            best = max(best, len([r for r in m.split("\n") if r.strip()]))
+    return best
+
+
+def _same_set(a, b):
+    for f in G.TEXT_FIELDS:
+        if a[f] != b[f]:
+            return False
+    if a["selectable"] != b["selectable"] or len(a["maps"]) != len(b["maps"]):
+        return False
+    for k in ("offset", "sample_start", "sample_length"):
+        if abs(float(_fr(a[k])) - float(_fr(b[k]))) > 1e-6:
+            return False
+    for x, y in zip(a["maps"], b["maps"]):
+        for k in ("chart_type", "description", "difficulty", "difficulty_val"):
+            if x[k] != y[k]:
+                return False
+        ox, oy = _objs(x), _objs(y)
+        if len(ox) != len(oy) or any(p[:2] != q[:2] or abs(p[2] - q[2]) > 1e-6 or abs(p[3] - q[3]) > 2e-6 for p, q in zip(ox, oy)):
+            return False
+        bx = sorted((float(_fr(o)), float(_fr(v))) for o, v, _ in x["bpms"])
+        by = sorted((float(_fr(o)), float(_fr(v))) for o, v, _ in y["bpms"])
+        if len(bx) != len(by) or any(abs(p[0] - q[0]) > 1e-6 or abs(p[1] - q[1]) > 1e-9 * (1 + abs(q[1])) for p, q in zip(bx, by)):
+            return False
+    return True
+
+
 def py_oracle(case, out):
     """Only for cases the Coq side places in the domain (dom True); the Coq oracle decides the denotation, this one
     re-reads the written text with the implementation: header fields unchanged, same objects, and write(read(text)) = text."""
@@ -435,7 +468,11 @@ def py_oracle(case, out):
             for x, y in zip(oa, ob):
                 if x[:2] != y[:2] or abs(x[2] - y[2]) > max_bl / 96 + 1e-6 or abs(x[3] - y[3]) > 2 * max_bl / 96 + 1e-6:
                     return False
-        if "text2" in out and not _same_text(out["v"], out["text2"]):
+        # reading the written text back gives the same result again: read(write(read(text))) = read(text)
+        if "reread2" not in out or not _same_set(rr, out["reread2"]):
+            return False
+        # and the text itself is reproduced unless a measure was cut down to the 384-row cap
+        if "text2" in out and _max_rows(out["v"]) < 384 and not _same_text(out["v"], out["text2"]):
             return False
     return True
 
